@@ -164,13 +164,17 @@ func (c *Ctx) paramOfColumn(method, role, col string) int {
 		default:
 			cols = st.SQL.Where
 		}
-		o := c.P.OriginsOf(st.Fn)
+		afn := st.ArgsFn
+		if afn == nil {
+			afn = st.Fn
+		}
+		o := c.P.OriginsOf(afn)
 		for i, cn := range cols {
 			if cn != col || i >= len(st.Args) {
 				continue
 			}
 			e := o.Of(st.Args[i])
-			for pi, prm := range st.Fn.Params {
+			for pi, prm := range afn.Params {
 				if pi == 0 {
 					continue
 				}
